@@ -649,6 +649,11 @@ def m_borrow_bytes(it, a, ty, callee):
     return it.call('<%s as std::borrow::Borrow<[u8]>>::borrow' % rt, a, ty)
 
 
+def m_try_into(it, a, ty, callee):
+    m = re.match(r'^<(.*) as std::convert::TryInto<(.*)>>::try_into$', callee, re.S)
+    return it.call('<%s as std::convert::TryFrom<%s>>::try_from' % (m.group(2).strip(), m.group(1).strip()), a, ty)
+
+
 def m_inspect_err(it, a, ty, callee):
     return a[0]
 
@@ -751,6 +756,7 @@ def install(it):
     A(r'std::result::Result::<.*>::inspect_err::<.*>', m_inspect_err)
     A(r'core::bool::<impl bool>::then::<.*>', m_opt_then)
     A(r'<[A-Z]\w* as std::borrow::Borrow<\[u8\]>>::borrow', m_borrow_bytes)
+    A(r'<.* as std::convert::TryInto<.*>>::try_into', m_try_into)
     A(r'<.* as std::convert::Into<.*>>::into', m_into)
     A(r'std::option::Option::<.*>::take', m_opt_take)
     A(r'std::(?:option::Option|result::Result)::<.*>::map::<.*>', m_opt_map)
@@ -798,6 +804,8 @@ def install(it):
     A(r'std::collections::(HashSet|BTreeSet)::<.*>::remove::<.*>', m_set_remove)
     A(r'std::collections::(HashSet|BTreeSet)::<.*>::contains::<.*>', m_set_contains)
     A(r'std::collections::(HashSet|BTreeSet)::<.*>::iter', m_set_iter)
+    A(r'std::collections::(HashSet|BTreeSet)::<.*>::clear', lambda it, a, ty, c: (it.store(a[0], SetModel()), UNIT)[1])
+    A(r'std::collections::(HashMap|BTreeMap)::<.*>::clear', lambda it, a, ty, c: (it.store(a[0], MapModel(kind=it.load(a[0]).kind)), UNIT)[1])
     A(r'<&?std::collections::(HashSet|BTreeSet)<.*> as std::cmp::PartialEq>::eq', m_eq)
     A(r'<&?std::collections::(HashSet|BTreeSet)<.*> as std::cmp::PartialEq>::ne', m_ne)
     A(r'<std::collections::(HashSet|BTreeSet)<.*> as std::iter::Extend<.*>>::extend::<.*>', m_set_extend)
